@@ -18,7 +18,7 @@ Definition untime_ev s te : option (bev A) :=
 Lemma core_tstep c s te : reset_every_item c = false ->
   core (tstep c s te) = match untime_ev s te with Some e => bstep (tc c) (core s) e | None => core s end.
 Proof.
-  intros R. destruct te as [dt|[it|ok|ok| |ok]]; cbn [tstep untime_ev]; try reflexivity.
+  intros R. destruct te as [dt|[it|ok|ok| |ok|it]]; cbn [tstep untime_ev]; try reflexivity.
   - cbn [bstep]. destruct (_ <? qcap (tc c)); reflexivity.
   - cbn [bstep]. rewrite R, orb_false_r. destruct (blocked (core s)); [reflexivity|].
     destruct (pc (core s)); [|reflexivity]. destruct (queue (core s)) as [|it q]; [reflexivity|].
@@ -27,7 +27,8 @@ Proof.
     destruct ok; [|reflexivity]. destruct (t_stop_drain (tm (core s))) as [t2 blk]. reflexivity.
   - destruct (fire_enabled s); reflexivity.
   - cbn [bstep]. destruct (blocked (core s)); [reflexivity|]. destruct (pc (core s)); [|reflexivity].
-    destruct (t_chan (tm (core s))); [|reflexivity]. destruct ok; [reflexivity|]. destruct (fixed_S2 (tc c)); reflexivity.
+    destruct (t_chan (tm (core s))); [|reflexivity]. destruct (fixed_S28 (tc c) && (cur (core s) =? 0)); [reflexivity|].
+    destruct ok; [reflexivity|]. destruct (fixed_S2 (tc c)); reflexivity.
 Qed.
 
 Lemma brun_snoc' (bc : bcfg) (es : list (bev A)) e : brun bc (es ++ [e]) = bstep bc (brun bc es) e.
@@ -77,7 +78,7 @@ Proof.
   destruct IT as (B & _ & _). specialize (IC B).
   unfold disc, times_ok, age_anchor in *.
   pose proof (conj (conj DL DA) TO) as Same.
-  destruct te as [dt|[it|ok|ok| |ok]]; cbn [tstep].
+  destruct te as [dt|[it|ok|ok| |ok|it]]; cbn [tstep].
   - (* Tick *) cbn [core ti now twhen ptimes rearm]. split; [split; [exact DL|]|].
     + intros NE. destruct (DA NE) as [[Ha Hw]|Hc]; [left; split; [exact Ha|]|right; exact Hc].
       rewrite Hw. destruct (rearm (ti s)); [reflexivity|].
@@ -121,10 +122,15 @@ Proof.
     unfold t_fire. rewrite FA. reflexivity.
   - (* OnTimer *) rewrite B. destruct (pc (core s)) eqn:PC; [|exact Same].
     destruct (t_chan (tm (core s))) eqn:TC; [|rewrite TC; exact Same].
+    destruct (fixed_S28 (tc c) && (cur (core s) =? 0)) eqn:S28.
+    { apply andb_true_iff in S28. destruct S28 as [_ C0]. apply N.eqb_eq in C0.
+      assert (P0 : pend (core s) = []) by (apply len0; lia).
+      cbn [core ti pend tm]. split; [split; [exact DL|intros NE; congruence]|exact TO]. }
     destruct ok.
     + cbn [core ti pend ptimes]. split; [split; [reflexivity|congruence]|]. intros t [].
     + rewrite F. cbn [core ti pend tm now twhen ptimes rearm t_reset t_active].
       split; [split; [exact DL|]|exact TO]. intros _. left. split; reflexivity.
+  - (* Reject *) cbn [core ti pend tm]. exact Same.
 Qed.
 
 Lemma tinv_init c : tinv c (tinit : tbst A).
@@ -167,7 +173,7 @@ Proof.
   destruct IT as (B & _ & _). specialize (IC B).
   unfold timely_st in TS. apply andb_true_iff in TS. destruct TS as [TS1 _].
   unfold fired_ok, age_anchor in *.
-  destruct te as [dt|[it|ok|ok| |ok]]; cbn [tstep].
+  destruct te as [dt|[it|ok|ok| |ok|it]]; cbn [tstep].
   - cbn [core ti now fired_at ptimes rearm]. intros C. destruct (FO C) as [H1 H2]. split; [lia|].
     intros NE. specialize (H2 NE). destruct (rearm (ti s)); [exact H2|].
     pose proof (len_nil_iff _ _ DL NE) as TN. destruct (ptimes (ti s)); [congruence|exact H2].
@@ -200,8 +206,10 @@ Proof.
       rewrite FA in TS1. cbn [negb orb] in TS1. apply N.leb_le in TS1. unfold age_anchor in Hw. lia.
   - rewrite B. destruct (pc (core s)) eqn:PC; [|exact FO].
     destruct (t_chan (tm (core s))) eqn:TC; [|rewrite TC; exact FO].
+    destruct (fixed_S28 (tc c) && (cur (core s) =? 0)); [cbn [core tm t_recv t_chan]; discriminate|].
     destruct ok; [cbn [core tm t_recv t_chan]; discriminate|].
     rewrite F. cbn [core tm t_reset t_recv t_chan]. discriminate.
+  - cbn [core ti pend tm]. exact FO.
 Qed.
 
 Lemma timely_bound_from c lf lw tes : reset_every_item c = false -> fixed_S2 (tc c) = true ->
@@ -255,8 +263,8 @@ End TimedLemmas.
 
 (* ---- witnesses ---- *)
 (* a trickle: one operation every 4 ticks, max_age 10, batch size 100; the runtime and the worker are prompt (lf = lw = 1) *)
-Definition code_cfg (age : N) : tcfg := mk_tcfg (mk_bcfg 10 100 true) age false.
-Definition every_item_cfg (age : N) : tcfg := mk_tcfg (mk_bcfg 10 100 true) age true.
+Definition code_cfg (age : N) : tcfg := mk_tcfg (mk_bcfg 10 100 true true) age false.
+Definition every_item_cfg (age : N) : tcfg := mk_tcfg (mk_bcfg 10 100 true true) age true.
 
 Definition trickle3 : list (cev N) :=
   [Ev (Enq 1); Ev (Take true); Tick 4; Ev (Enq 2); Ev (Take true); Tick 4; Ev (Enq 3); Ev (Take true); Tick 2;
